@@ -335,12 +335,27 @@ class FwSettingDupInner(LoopContract):
             z3.And(0 <= b, b < k, b != i), fw_name(i) != fw_name(b))))]
 
 
+def fw_rule_spec(I, f, nSrv):
+    """the documented meaning of "valid firewall setting" for an arbitrary value f: a list of known services (names
+    0..nSrv-1) without duplicates"""
+    if isinstance(f, PyList):
+        f = SymSeq(len(f.items), lambda j, items=list(f.items): B._pick(items, j), "list")
+    if not (isinstance(f, SymSeq) and f.label != "tuple"):
+        return z3.BoolVal(False)
+    n = f.n if not isinstance(f.n, int) else z3.IntVal(f.n)
+    a, b = z3.Int("fwr_a"), z3.Int("fwr_b")
+    el = lambda j: nameval(f.elem(j))
+    return z3.And(z3.ForAll([a], z3.Implies(z3.And(0 <= a, a < n), z3.And(0 <= el(a), el(a) < nSrv))),
+                  z3.ForAll([a, b], z3.Implies(z3.And(0 <= a, a < n, 0 <= b, b < n, a != b), el(a) != el(b))))
+
+
 @contract
 class IsValidFirewallSetting(Contract):
-    """result <=> the value is a list of known services without duplicates (any length)"""
+    """result <=> the value is a list of known services without duplicates (any length).  Used as the callee contract
+    at the call sites in _validate_firewall / _validate_host_config."""
     qualname = LQ + "_is_valid_firewall_setting"
-    callable_by_contract = False
     bounded = False
+    inline_when_concrete = True        # the bounded whole-loader tasks keep executing the real helper
     tags = {"": ("C17", "C18")}
 
     def variants(self):
@@ -357,18 +372,22 @@ class IsValidFirewallSetting(Contract):
         lo = loader_obj(I, services=names_seq(nSrv, "services"))
         S = Scope()
         S.extra.update(variant=variant, n=n, nSrv=nSrv)
-        S.a = {"self": lo}
+        S.a = {"self": lo, "f": f}
         S.call_args = ([lo, f], {})
         return S
 
     def ensures(self, I, S):
-        n, nSrv = S.extra["n"], S.extra["nSrv"]
+        f = S.a["f"]
+        nSrv = ival(B._len(I, S.a["self"].fields["services"]))
         r = S.result
-        if S.extra["variant"] != "list":
-            return [("C18.firewall-rule-must-be-a-list", z3.BoolVal(r is False))]
-        spec = z3.And(fw_known(nSrv, n), fw_distinct_rows(n, n))
+        spec = fw_rule_spec(I, f, nSrv)
+        if z3.is_false(spec):
+            return [("C18.firewall-rule-must-be-a-list", z3.BoolVal(r is False) if isinstance(r, bool) else z3.Not(bval(r)))]
         return [("C17.valid-rule-accepted", z3.Implies(spec, bval(r))),
                 ("C18.accepted-rule-is-list-of-distinct-services", z3.Implies(bval(r), spec))]
+
+    def havoc(self, I, S):
+        return SymV(I.ctx.fresh("fw_rule_ok", B_), "bool")
 
 
 # ---- _construct_host_config ------------------------------------------------------------------------------------
@@ -678,13 +697,29 @@ class RequiredFwCols(LoopContract):
         return [("earlier-columns-covered", fw_pairs_covered(I.ext_state["fwc_nS"], entry["k"], upto=k))]
 
 
+def fw_cover_spec(I, topology, firewall):
+    """both directions of every connected ordered pair of distinct subnets are keys of `firewall`"""
+    from pyvc.builtins import contains
+    nS = ival(B._len(I, topology))
+    a, b = z3.Int("fwc_a"), z3.Int("fwc_b")
+    if isinstance(topology, SymSeq) and topology.concrete_len() is None:
+        cell = lambda r, c: ival(topology.elem(r).elem(c))
+    else:
+        rows = [I.as_sequence(r) for r in I.as_sequence(topology)]
+        rows = [r if isinstance(r, list) else [r.elem(i) for i in range(r.concrete_len())] for r in rows]
+        cell = lambda r, c: ival(B._pick([B._pick_t(row, c) for row in rows], r))
+    has = lambda x, y: bval(contains(I, firewall, SymV(B.ADDR_STR(x, y), "name"), None))
+    return z3.ForAll([a, b], z3.Implies(z3.And(0 <= a, a < nS, 0 <= b, b < nS, a != b, cell(a, b) == 1),
+                                        z3.And(has(a, b), has(b, a))))
+
+
 @contract
 class ContainsAllRequiredFirewalls(Contract):
     """result <=> the firewall section has a rule in both directions for every connected ordered pair of distinct
-    subnets (internet included), for a topology of any size"""
+    subnets (internet included), for a topology of any size.  Callee contract of _validate_firewall."""
     qualname = LQ + "_contains_all_required_firewalls"
-    callable_by_contract = False
     bounded = False
+    inline_when_concrete = True
     tags = {"": ("C17", "C18")}
 
     def setup(self, I, variant):
@@ -696,15 +731,98 @@ class ContainsAllRequiredFirewalls(Contract):
         lo = loader_obj(I, topology=topo)
         S = Scope()
         S.extra.update(nS=nS)
-        S.a = {"self": lo}
-        S.call_args = ([lo, keys_coll()], {})
+        S.a = {"self": lo, "firewall": keys_coll()}
+        S.call_args = ([lo, S.a["firewall"]], {})
         return S
 
     def ensures(self, I, S):
-        nS = S.extra["nS"]
-        spec = fw_pairs_covered(nS, nS)
+        if getattr(S, "callsite", False):
+            spec = fw_cover_spec(I, S.a["self"].fields["topology"], S.a["firewall"])
+        else:
+            nS = S.extra["nS"]
+            spec = fw_pairs_covered(nS, nS)
         return [("C17.complete-firewall-accepted", z3.Implies(spec, bval(S.result))),
                 ("C18.accepted-firewall-covers-every-connection", z3.Implies(bval(S.result), spec))]
+
+    def havoc(self, I, S):
+        B.addr_axioms(I)
+        return SymV(I.ctx.fresh("fw_complete", B_), "bool")
+
+
+# ---- _validate_firewall: the two helper contracts composed over a section with any number of rules ---------------
+
+rule_len = z3.Function("doc_rule_len", I_, I_)             # length of the rule stored under a key (by key code)
+rule_name = z3.Function("doc_rule_name", I_, I_, I_)
+rule_islist = z3.Function("doc_rule_is_list", I_, B_)
+fwk = z3.Function("doc_fw_key", I_, I_)                    # j-th key of the firewall section
+
+
+def rule_ok(nSrv, key):
+    a, b = z3.Int("rk_a"), z3.Int("rk_b")
+    n = rule_len(key)
+    return z3.And(z3.ForAll([a], z3.Implies(z3.And(0 <= a, a < n), z3.And(0 <= rule_name(key, a), rule_name(key, a) < nSrv))),
+                  z3.ForAll([a, b], z3.Implies(z3.And(0 <= a, a < n, 0 <= b, b < n, a != b),
+                                               rule_name(key, a) != rule_name(key, b))))
+
+
+def rules_ok(nSrv, k):
+    j = z3.Int("rk_j")
+    return z3.ForAll([j], z3.Implies(z3.And(0 <= j, j < k), rule_ok(nSrv, fwk(j))))
+
+
+@loop_contract
+class ValidateFirewallRules(LoopContract):
+    qualname = LQ + "_validate_firewall"
+    ordinal = 0
+    tags = ("C17", "C18")
+
+    def snapshot(self, I, fr, seq):
+        return {}
+
+    def havoc(self, I, fr, entry, seq):
+        for v in loop_assigned(self.st):
+            fr.locals.pop(v, None)
+
+    def inv(self, I, fr, entry, seq, k):
+        return [("earlier-rules-valid", rules_ok(I.ext_state["vf_nSrv"], k))]
+
+
+@contract
+class ValidateFirewall(_Leaf):
+    """firewall section with any number of rules over a topology of any size: accepted iff it has both directions of
+    every connection and every rule is a duplicate-free list of known services.  Verified against the CONTRACTS of
+    _contains_all_required_firewalls and _is_valid_firewall_setting (modular)."""
+    qualname = LQ + "_validate_firewall"
+
+    def setup(self, I, variant):
+        from pyvc.values import SymDict
+        nS, n, nSrv = size_var(I, "doc_nS", 3), size_var(I, "doc_n_rules", 2), size_var(I, "doc_nSrv", 2)
+        j, i2 = z3.Int("vf_j"), z3.Int("vf_i")
+        I.ctx.assume(z3.And(nS >= 2, n >= 0, nSrv >= 1, z3.ForAll([j], rule_len(j) >= 0)))
+        I.ctx.assume(z3.ForAll([j, i2], z3.Implies(z3.And(0 <= j, j < i2, i2 < n), fwk(j) != fwk(i2))))
+        B.addr_axioms(I)
+        I.ext_state.update(vf_nSrv=nSrv, fwc_nS=nS)
+        keys = SymSeq(n, lambda q: SymV(fwk(ival(q)), "name"), "firewall.keys")
+        in_keys = lambda k: z3.Exists([j], z3.And(0 <= j, j < n, fwk(j) == nameval(k)))
+        fw = SymDict(in_keys, lambda k: SymSeq(rule_len(nameval(k)), lambda q, k=k: SymV(rule_name(nameval(k), ival(q)), "name"),
+                                               "list"), keys=keys, label="firewall")
+        topo = SymSeq(nS, lambda r: SymSeq(nS, lambda c, r=r: SymV(doc_topo(ival(r), ival(c)), "int"), "list"), "list")
+        a, b = z3.Int("vf_a"), z3.Int("vf_b")
+        has = lambda x, y: in_keys(SymV(B.ADDR_STR(x, y), "name"))
+        cover = z3.ForAll([a, b], z3.Implies(z3.And(0 <= a, a < nS, 0 <= b, b < nS, a != b, doc_topo(a, b) == 1),
+                                             z3.And(has(a, b), has(b, a))))
+        spec = z3.And(cover, rules_ok(nSrv, n))
+        if variant == "valid":
+            I.ctx.assume(spec)
+        lo = loader_obj(I, topology=topo, services=names_seq(nSrv, "services"))
+        S = Scope()
+        S.extra.update(variant=variant, spec=spec)
+        S.a = {"self": lo}
+        S.call_args = ([lo, fw], {})
+        return S
+
+    def ensures(self, I, S):
+        return [("C18.accepted-firewall-is-complete-with-valid-rules", S.extra["spec"])]
 
 
 @contract
